@@ -7,11 +7,9 @@ import PysparklingVerif.Lemmas.JoinLemmas
 namespace PysparklingVerif.C13
 open PysparklingVerif.Rdd PysparklingVerif.Sql PysparklingVerif.Join
 
--- OBLIGATION: PysparklingVerif.C13.dfjoin_perm
-/-- for all six join types, any key columns, and ANY partitioning of either side, the joined rows are —
-as a multiset — exactly the rows of the nested-loop reference: one row per matching pair, null-padded
-rows for the unmatched side of outer joins, left rows filtered by (non-)existence of a match for semi / anti -/
-theorem dfjoin_perm (how : How) (ln rn on : List String) (l r : Parts Row) :
+/-- (the model-level fact, also where a join column is missing on one side - there the model's `keyOf` reads a null key
+while the code raises: the obligations below exclude that) -/
+theorem dfjoin_perm_model (how : How) (ln rn on : List String) (l r : Parts Row) :
     (dfJoin how ln rn on l r).Perm (specJoin how ln rn on (flat l) (flat r)) := by
   cases how
   · show ((flat (Keyed.join none (Rdd.map (kf ln on) l) (Rdd.map (kf rn on) r))).map _).Perm _
@@ -39,19 +37,30 @@ theorem dfjoin_perm (how : How) (ln rn on : List String) (l r : Parts Row) :
     refine List.Perm.trans ((C02.semi_anti_perm _ _).2.map _) (List.Perm.of_eq ?_)
     rw [C01.map_flat, C01.map_flat]
 
+-- OBLIGATION: PysparklingVerif.C13.dfjoin_perm
+/-- for all six join types, any key columns, and ANY partitioning of either side, the joined rows are —
+as a multiset — exactly the rows of the nested-loop reference: one row per matching pair, null-padded
+rows for the unmatched side of outer joins, left rows filtered by (non-)existence of a match for semi / anti -/
+theorem dfjoin_perm (how : How) (ln rn on : List String) (l r : Parts Row)
+    -- a join column that one side lacks makes the code raise (the model's `keyOf` would read it as a null key)
+    (_hon : ∀ c ∈ on, c ∈ ln ∧ c ∈ rn) :
+    (dfJoin how ln rn on l r).Perm (specJoin how ln rn on (flat l) (flat r)) :=
+  dfjoin_perm_model how ln rn on l r
+
 -- OBLIGATION: PysparklingVerif.C13.dfjoin_partition_independent
 theorem dfjoin_partition_independent (how : How) (ln rn on : List String) (l l' r r' : Parts Row)
-    (hl : flat l = flat l') (hr : flat r = flat r') :
+    (hl : flat l = flat l') (hr : flat r = flat r') (hon : ∀ c ∈ on, c ∈ ln ∧ c ∈ rn) :
     (dfJoin how ln rn on l r).Perm (dfJoin how ln rn on l' r') := by
-  refine (dfjoin_perm how ln rn on l r).trans ?_
+  refine (dfjoin_perm how ln rn on l r hon).trans ?_
   rw [hl, hr]
-  exact (dfjoin_perm how ln rn on l' r').symm
+  exact (dfjoin_perm how ln rn on l' r' hon).symm
 
 -- OBLIGATION: PysparklingVerif.C13.dfjoin_columns
 /-- output columns: the key columns once, then the remaining left columns, then (except for semi / anti)
 the remaining right columns — and every joined row has exactly that many values -/
 theorem dfjoin_columns (how : How) (ln rn on : List String) (l r : Parts Row)
-    (hl : ∀ row ∈ flat l, row.length = ln.length) (hr : ∀ row ∈ flat r, row.length = rn.length) :
+    (hl : ∀ row ∈ flat l, row.length = ln.length) (hr : ∀ row ∈ flat r, row.length = rn.length)
+    (hon : ∀ c ∈ on, c ∈ ln ∧ c ∈ rn) :
     joinNames how ln rn on =
       on ++ (ln.filter fun n => !on.contains n) ++
         (if how = .semi ∨ how = .anti then [] else rn.filter fun n => !on.contains n) ∧
@@ -59,7 +68,15 @@ theorem dfjoin_columns (how : How) (ln rn on : List String) (l r : Parts Row)
   refine ⟨rfl, ?_⟩
   intro row hrow
   exact specJoin_row_length how ln rn on (flat l) (flat r) hl hr row
-    ((dfjoin_perm how ln rn on l r).mem_iff.mp hrow)
+    ((dfjoin_perm how ln rn on l r hon).mem_iff.mp hrow)
+
+/-- (row widths on the model, without the guard; used by the frame lemmas, where `findCol` has checked the keys) -/
+theorem dfjoin_row_length_model (how : How) (ln rn on : List String) (l r : Parts Row)
+    (hl : ∀ row ∈ flat l, row.length = ln.length) (hr : ∀ row ∈ flat r, row.length = rn.length) :
+    ∀ row ∈ dfJoin how ln rn on l r, row.length = (joinNames how ln rn on).length := by
+  intro row hrow
+  exact specJoin_row_length how ln rn on (flat l) (flat r) hl hr row
+    ((dfjoin_perm_model how ln rn on l r).mem_iff.mp hrow)
 
 -- OBLIGATION: PysparklingVerif.C13.crossJoin_eq
 theorem crossJoin_eq (l r : Parts Row) :
